@@ -290,14 +290,21 @@ def _format_glob_violation_pages(violations: Iterable[GlobViolation]) -> list[tu
     ]
 
 
-async def _report_glob_violations(workflow: Workflow, reporter: ReporterClient) -> ReturnCode:
-    """Report glob matches that no static declaration justifies."""
+async def _report_glob_violations(
+    workflow: Workflow, reporter: ReporterClient, errors_only: bool = False
+) -> ReturnCode:
+    """Report glob matches that no static declaration justifies.
+
+    With `errors_only`, unjustified matches without a node (warnings) are left out:
+    after an incomplete build they are usually a consequence of the real failure.
+    A match that an active step builds is reported either way.
+    """
     async with workflow.db:
         violations = workflow.find_glob_violations()
     returncode = ReturnCode(0)
     warnings = [violation for violation in violations if not violation.is_error]
     errors = [violation for violation in violations if violation.is_error]
-    if len(warnings) > 0:
+    if len(warnings) > 0 and not errors_only:
         returncode |= ReturnCode.WARNING
         pages = _format_glob_violation_pages(warnings)
         pages.append(("Remedy", GLOB_VIOLATION_REMEDY))
@@ -329,15 +336,19 @@ async def report_unbuilt(
         # The missing-target checks further down are skipped too: the build phase ended
         # early, so steps that would have declared a target as output may not have run yet,
         # making a "not produced" warning unreliable.
+        # A glob match that an active step builds is an error regardless of how the phase ended.
+        returncode |= await _report_glob_violations(workflow, reporter, errors_only=True)
         return returncode
 
     returncode |= await _report_pending_steps(workflow, reporter)
     returncode |= await _report_missing_targets(workflow, reporter)
-    # Late glob validation is skipped when the build already went wrong: an unjustified
-    # match is then usually a consequence (a plan that would have declared it never ran),
+    # Unjustified matches are only reported when nothing else went wrong: such a match is
+    # then usually a consequence (a plan that would have declared it never ran),
     # and fixing the real failure tends to fix this too.
-    if returncode == ReturnCode(0):
-        returncode |= await _report_glob_violations(workflow, reporter)
+    # A match that an active step builds is always an error.
+    returncode |= await _report_glob_violations(
+        workflow, reporter, errors_only=returncode != ReturnCode(0)
+    )
     return returncode
 
 
